@@ -43,6 +43,9 @@ CLAIMED['C14'] = ("CalcParams' count, offsets and accept/reject decision equal a
 CLAIMED['C21'] = ("checkSQLAllowed for a read-only user (with and without read/write splitting) rejects exactly the write vocabulary (insert, replace, update, delete, create, alter, drop, truncate, rename, load) and admits the read vocabulary, for texts lead+keyword+separator+rest with the case of every keyword letter symbolic, the separator any ASCII whitespace byte and leads from whitespace / block comment / line comment / hash comment / parenthesis",
     "the direct-query gate only (multi-statement pieces and prepared execution reach the same checkSQLAllowed through doQuery/handleQuery, which is not re-proved here); '/*! ... */' executable comments, CALL/GRANT and statements beyond the listed vocabulary are outside the bound; strings.ToLower replaced by a non-forking ASCII equivalent under the engine")
 
+CLAIMED['C22'] = ("the replica decision (Preview + Tokenize + checkExecuteFromSlave) for a read/write-split user outside a transaction sends a statement to a replica only if it is a plain SELECT/SHOW: 17 statement forms (locking reads with NOWAIT/SKIP LOCKED, master hint leading/inline/trailing, read_only probes, DML) x symbolic letter case of the deciding keywords x leads x trails (whitespace byte, ';', block comment, line comment)",
+    "decision function only (the connection actually taken from Slice.GetConn and the in-transaction branch are part of C18's subject); CheckSelectLock on; strings.ToLower/EqualFold replaced by non-forking ASCII equivalents under the engine; misrouting after a trailing ';' or comment is recorded as known findings C22-*")
+
 NA_REASON = "check not built yet (work in progress; see DESIGN.md section 3 for the planned harness)"
 NA = {}
 
